@@ -888,6 +888,8 @@ class Interp:
                 return "rows", setup
             if kind == "plain":
                 return "plain", Val("TUP", elts=[P if inner.k != "B" else B, inner])
+            if kind == "unroll":
+                return "unroll", [Val("TUP", elts=[P, x]) for x in inner]
             return "plist", Val("TUP", elts=[P, inner])
         if isinstance(it, ast.Call) and isinstance(it.func, ast.Name) and it.func.id == "zip" \
                 and not it.keywords and it.args and not any(isinstance(a, ast.Starred)
@@ -940,6 +942,9 @@ class Interp:
             return "rows", setup
         if v.k == "PLIST":
             return "plist", panel(v.raw, v.iax or 0, v.nd, v.cont)
+        if v.k == "TUP" and self.has_panel(v.elts):
+            # a literal tuple / list holding panels: the loop is unrolled over its elements
+            return "unroll", list(v.elts)
         return "plain", self.elem_of(v, node)
 
     def elem_of(self, v, node):
@@ -1038,6 +1043,17 @@ class Interp:
             finally:
                 self.scopes.pop()
             return panel(("RMapRows", self.sym(e, "comp"), scope.srcs, scope.ixs), 0, None, "list")
+        if kind == "unroll":
+            if g.ifs:
+                raise Reject("L%d: filter over a tuple of panels" % e.lineno)
+            outs = []
+            for x in info:
+                innerx = dict(env)
+                self.bind(g.target, x, innerx, e)
+                outs.append(self.ev(elt, innerx))
+            if self.has_panel(outs):
+                return Val("TUP", elts=outs)
+            return self.opaque(outs, e, "comprehension")
         self.bind(g.target, info, inner, e)
         for c in g.ifs:
             cv = self.ev(c, inner)
@@ -2115,6 +2131,17 @@ class Interp:
             return False
         if kind == "plist":
             self.plain_loop(st, env, st.target, info)
+            return False
+        if kind == "unroll":
+            if st.orelse:
+                raise Reject("L%d: for/else over a tuple of panels" % st.lineno)
+            self.loops.append("plain")
+            try:
+                for x in info:
+                    self.bind(st.target, x, env, st)
+                    self.block(st.body, env)
+            finally:
+                self.loops.pop()
             return False
         if info.k == "B":
             raise Reject("L%d: loop over batch data" % st.lineno)
